@@ -61,6 +61,35 @@ def parse(fmt, text):
         signal.signal(signal.SIGALRM, old)
 
 
+def parse_path(fmt, data: bytes):
+    """the same readers, given the PATH of a file holding `data` (the damage may be below the text level: bytes that are no text)"""
+    import molli as ml
+    import tempfile
+    import warnings
+
+    fd, p = tempfile.mkstemp(suffix="." + fmt, dir=os.environ.get("VF_SCRATCH") or None)
+    with os.fdopen(fd, "wb") as fh:
+        fh.write(data)
+    old = signal.signal(signal.SIGALRM, _alarm)
+    signal.alarm(60)
+    try:
+        with warnings.catch_warnings():
+            warnings.simplefilter("ignore")
+            res = ml.Molecule.load_all_mol2(p) if fmt == "mol2" else ml.Molecule.load_all_xyz(p)
+        return "ok", res
+    except _Timeout:
+        return "hang", None
+    except Exception as e:
+        return "exc", e
+    finally:
+        signal.alarm(0)
+        signal.signal(signal.SIGALRM, old)
+        try:
+            os.unlink(p)
+        except OSError:
+            pass
+
+
 def own_headers(fmt, text):
     """(n_atoms, n_bonds) declared by each molecule header of the (damaged) text, in order"""
     out = []
@@ -94,8 +123,14 @@ def own_headers(fmt, text):
     return out
 
 
-def judge(fmt, orig_snaps, damaged, what) -> tuple[str, Fail | None]:
-    st_, res = parse(fmt, damaged)
+def judge(fmt, orig_snaps, damaged, what, route="string") -> tuple[str, Fail | None]:
+    if isinstance(damaged, bytes):
+        st_, res = parse_path(fmt, damaged)
+        damaged = damaged.decode("utf-8", errors="replace")     # (for the harness' own header scan: the bad byte makes its token invalid)
+    elif route == "path":
+        st_, res = parse_path(fmt, damaged.encode("utf-8"))
+    else:
+        st_, res = parse(fmt, damaged)
     if st_ == "hang":
         return "hang", Fail(f"{fmt}:reader-does-not-terminate:{what}", "no result within 60 s")
     if st_ == "exc":
@@ -374,12 +409,22 @@ def check_faults(recipe) -> list[Fail]:
     fails: list[Fail] = []
     n = 0
     keys, outcomes = [], {}
+    route = recipe.get("route", "string")
     for fault in recipe["faults"]:
-        damaged = apply_fault(fmt, text, fault)
-        if damaged is None or damaged.split() == text.split():
-            continue
+        if fault[0] == "byte_bad":
+            # below the text level: one byte of a token is overwritten with a byte (sequence) that is not valid UTF-8 / ASCII; the file is read by path
+            raw = text.encode("utf-8")
+            pos = [i for i, b in enumerate(raw) if not chr(b).isspace()]
+            at = pos[fault[1] % len(pos)]
+            damaged = raw[:at] + [b"\xff", b"\x80", b"\xc3", b"\xfe"][fault[2] % 4] + raw[at + 1:]
+        else:
+            damaged = apply_fault(fmt, text, fault)
+            if damaged is None or damaged.split() == text.split():
+                continue
         n += 1
-        kind, f = judge(fmt, snaps, damaged, fault[0])
+        kind, f = judge(fmt, snaps, damaged, fault[0], route=route)
+        if isinstance(damaged, bytes):
+            damaged = damaged.decode("utf-8", errors="replace")
         outcomes[f"{fault[0]}->{kind}"] = outcomes.get(f"{fault[0]}->{kind}", 0) + 1
         if own_headers(fmt, damaged):
             keys.append((chem_hash(recipe["src"]), tuple(map(str, fault))))
@@ -427,9 +472,9 @@ def strat_faults(tier):
     fault = st.one_of(
         st.tuples(st.just("del"), st.lists(i, min_size=1, max_size=2)).map(list),
         st.tuples(st.just("dup"), st.lists(i, min_size=1, max_size=2)).map(list),
-        st.tuples(st.sampled_from(["tok_bad", "tok_bad", "tok_del", "tok_ins", "renumber"]), i, i).map(list),
+        st.tuples(st.sampled_from(["tok_bad", "tok_bad", "tok_del", "tok_ins", "renumber", "byte_bad"]), i, i).map(list),
     )
-    return st.fixed_dictionaries({"src": _srcs(tier), "faults": st.lists(fault, min_size=8, max_size=20)})
+    return st.fixed_dictionaries({"src": _srcs(tier), "route": st.sampled_from(["string", "string", "path"]), "faults": st.lists(fault, min_size=8, max_size=20)})
 
 
 def strat_trunc(tier):
@@ -508,6 +553,6 @@ LEGS = [
     Leg("trunc_gen", check_trunc, classify, strategy=strat_trunc, n={"quick": 150, "thorough": 3000}, shards={"quick": 16, "thorough": 32},
         rule="generated multi-molecule files (2-5 molecules that differ in atom and bond counts), same exhaustive truncation per file"),
     Leg("faults", check_faults, classify, strategy=strat_faults, n={"quick": 400, "thorough": 10000}, shards={"quick": 16, "thorough": 32},
-        rule="per file 8-20 random faults: single/double line deletion or duplication, token made invalid for its field (non-numeric text in numeric fields, unknown type names), token deletion / insertion, a record's serial number changed to a neighbouring one, the last letter of a two-letter element symbol damaged; "
+        rule="per file 8-20 random faults: single/double line deletion or duplication, token made invalid for its field (non-numeric text in numeric fields, unknown type names), token deletion / insertion, a record's serial number changed to a neighbouring one, the last letter of a two-letter element symbol damaged, one byte of a token overwritten by a byte that is not text (file read by path); a third of the files go through the path readers; "
              "non-trivial = at least one molecule header survives in the damaged text"),
 ]
